@@ -415,6 +415,16 @@ def _do(step, W):
         head, _, last = step["path"].rpartition(".")
         setattr(_getpath(o, head), last, dec_lit(step["val"], W))
         return None
+    if k == "repr":
+        o = W.objs[step["obj"]]
+        return [len(repr(o)) > 0, len(str(o)) >= 0]
+    if k == "mutate_result":
+        # environment action: the caller modifies a (mutable) value a call handed back to it
+        r = W.results.get(step["ref"])
+        if isinstance(r, list) and r:
+            r[0], r[-1] = r[-1], r[0]
+            r.append(r[0])
+        return None
     if k == "mutate":
         # environment action: the caller overwrites the content of its own mutable buffer object
         o = W.objs[step["obj"]]
